@@ -1,10 +1,11 @@
 #!/bin/bash
 # builds everything from files on disk (offline): Lean model/proofs/oracle, extractor, harness
 set -e
+V="$(cd "$(dirname "$0")" && pwd)"
 export GOFLAGS=-mod=mod GOPROXY=off GOSUMDB=off GOTOOLCHAIN=local
-cd /verif/lean && lake build Updog oracle
-mkdir -p /verif/.build
-if [ -d /verif/extract ]; then (cd /verif/extract && go build -o /verif/.build/extract .); fi
-cp /repo/go.sum /verif/harness/go.sum
-cd /verif/harness && go build -tags verif -o /verif/.build/harness .
+cd "$V/lean" && lake build Updog oracle
+mkdir -p $V/.build
+if [ -d $V/extract ]; then (cd $V/extract && go build -o $V/.build/extract .); fi
+cp /repo/go.sum $V/harness/go.sum
+cd $V/harness && go build -tags verif -o $V/.build/harness .
 echo setup-ok
